@@ -29,6 +29,8 @@ inline std::string scheduler_manual_one(vf::rng &r, std::string &trace, int &ops
     std::vector<sch_entry> E;
     long now = 0;
     int len = 2 + (int)r.below(r.chance(1, 4) ? 40 : 16);
+    bool longrun = r.chance(1, 400); // long run on ONE scheduler: the heap grows to a hundred or more pending sleeps and is drained / cancelled again
+    if (longrun) len = 150 + (int)r.below(450);
     int nids = 1 + (int)r.below(4);
     std::string err;
     auto idptr = [&](int id) -> const void * { return id == 0 ? nullptr : &idtags[id]; };
@@ -46,6 +48,7 @@ inline std::string scheduler_manual_one(vf::rng &r, std::string &trace, int &ops
     for (int step = 0; step < len && err.empty(); step++) {
         uint32_t x = r.below(100);
         int op = x < 38 ? SO_SLEEP : x < 62 ? SO_EXPIRED : x < 76 ? SO_CANCEL : x < 84 ? SO_CANCEL_E : x < 97 ? SO_REMOVE : SO_DESTROY;
+        if (longrun) { if (step < len / 2 && x >= 38 && x < 80) op = SO_SLEEP; if (op == SO_DESTROY && step < len - 5) op = SO_EXPIRED; }
         if (!sch) break;
         ops_done++;
         switch (op) {
